@@ -29,18 +29,42 @@ type witness struct {
 	manner string
 }
 
-type rigs struct {
-	r [2]*rig
+// srvCfg is the server configuration a rig runs with.
+type srvCfg struct {
+	split  bool // EnableSplittingOnParsers
+	lazy   bool // DisablePreParseMultipartForm: the multipart form is parsed on first use, not while reading
+	stream bool // StreamRequestBody
 }
 
-func newRigs() *rigs { return &rigs{r: [2]*rig{newRig(false), newRig(true)}} }
-func (g *rigs) get(split bool) *rig {
-	if split {
-		return g.r[1]
-	}
-	return g.r[0]
+func (c srvCfg) plain() bool { return !c.lazy && !c.stream }
+
+// rigs holds one rig per server configuration, made on first use.
+type rigs struct {
+	m map[srvCfg]*rig
 }
-func (g *rigs) close() { g.r[0].close(); g.r[1].close() }
+
+func newRigs() *rigs { return &rigs{m: map[srvCfg]*rig{}} }
+func (g *rigs) getCfg(c srvCfg) *rig {
+	r := g.m[c]
+	if r == nil {
+		r = newRig(c)
+		g.m[c] = r
+	}
+	return r
+}
+func (g *rigs) get(split bool) *rig { return g.getCfg(srvCfg{split: split}) }
+func (g *rigs) close() {
+	for _, r := range g.m {
+		r.close()
+	}
+}
+func (g *rigs) trips() int64 {
+	var n int64
+	for _, r := range g.m {
+		n += r.trips
+	}
+	return n
+}
 
 type shrinker struct {
 	g      *rigs
